@@ -2259,7 +2259,7 @@ impl PartialDSym {
     //@ end
 
     // `impl DSet for PartialDSym :: r` (override, inherent emission R15)
-    //@ begin src/dsyms.rs :: impl DSet for PartialDSym :: fn r | props=C01,C02,C04
+    //@ begin src/dsyms.rs :: impl DSet for PartialDSym :: fn r | props=C01,C02,C04,C05
     //@ rw R16 /-> Option<usize>/-> (r: Option<usize>)/
     fn r(&self, i: usize, j: usize, d: usize) -> (r: Option<usize>)
         requires self.inv()
@@ -2373,7 +2373,7 @@ impl DSet for PartialDSym {
     }
     //@ end
 
-    //@ begin src/dsyms.rs :: impl DSet for PartialDSym :: fn m | props=C01,C02,C04
+    //@ begin src/dsyms.rs :: impl DSet for PartialDSym :: fn m | props=C01,C02,C04,C05
     fn m(&self, i: usize, j: usize, d: usize) -> Option<usize>
     {
         proof {
@@ -2395,7 +2395,7 @@ impl DSym for PartialDSym {
     }
 
     // `impl DSym for PartialDSym :: v` (the real trait impl)
-    //@ begin src/dsyms.rs :: impl DSym for PartialDSym :: fn v | props=C01,C02,C04
+    //@ begin src/dsyms.rs :: impl DSym for PartialDSym :: fn v | props=C01,C02,C04,C05
     //@ rw R16 /-> Option<usize>/-> (r: Option<usize>)/
     fn v(&self, i: usize, j: usize, d: usize) -> (r: Option<usize>)
     {
@@ -2611,7 +2611,7 @@ impl SimpleDSym {
     //@ end
 
     // `impl DSet for SimpleDSym :: r` (override, inherent emission R15)
-    //@ begin src/dsyms.rs :: impl DSet for SimpleDSym :: fn r | props=C01,C02,C04
+    //@ begin src/dsyms.rs :: impl DSet for SimpleDSym :: fn r | props=C01,C02,C04,C05
     //@ rw R16 /-> Option<usize>/-> (r: Option<usize>)/
     fn r(&self, i: usize, j: usize, d: usize) -> (r: Option<usize>)
         requires self.inv()
@@ -2671,7 +2671,7 @@ impl DSet for SimpleDSym {
     }
     //@ end
 
-    //@ begin src/dsyms.rs :: impl DSet for SimpleDSym :: fn m | props=C01,C02,C04
+    //@ begin src/dsyms.rs :: impl DSet for SimpleDSym :: fn m | props=C01,C02,C04,C05
     fn m(&self, i: usize, j: usize, d: usize) -> Option<usize>
     {
         proof {
@@ -2693,7 +2693,7 @@ impl DSym for SimpleDSym {
     }
 
     // `impl DSym for SimpleDSym :: v` (the real trait impl)
-    //@ begin src/dsyms.rs :: impl DSym for SimpleDSym :: fn v | props=C01,C02,C04
+    //@ begin src/dsyms.rs :: impl DSym for SimpleDSym :: fn v | props=C01,C02,C04,C05
     //@ rw R16 /-> Option<usize>/-> (r: Option<usize>)/
     fn v(&self, i: usize, j: usize, d: usize) -> (r: Option<usize>)
     {
